@@ -422,7 +422,9 @@ func c13Executable(d *dag.DAG) bool {
 	if len(d.Steps) == 0 || len(d.Steps) > 6 {
 		return no("step-count")
 	}
-	if d.Delay > time.Second || (d.MailOn != nil && (d.MailOn.Failure || d.MailOn.Success)) {
+	// mail is attempted only where it fails at once (no SMTP host: connection refused on the spot)
+	noHost := d.SMTP == nil || d.SMTP.Host == ""
+	if d.Delay > time.Second || (d.MailOn != nil && (d.MailOn.Failure || d.MailOn.Success) && !noHost) {
 		return no("delay-or-mail")
 	}
 	ok := func(s *dag.Step) bool {
@@ -432,7 +434,7 @@ func c13Executable(d *dag.DAG) bool {
 		if s.ExecutorConfig.Type != "" && s.ExecutorConfig.Type != "command" {
 			return no("executor-type")
 		}
-		if s.SubWorkflow != nil || s.RepeatPolicy.Repeat || s.MailOnError || len(s.Script) > 200 {
+		if s.SubWorkflow != nil || s.RepeatPolicy.Repeat || (s.MailOnError && !noHost) || len(s.Script) > 200 {
 			return no("subworkflow-repeat-mail")
 		}
 		if s.RetryPolicy != nil && (s.RetryPolicy.Interval > time.Second || s.RetryPolicy.Limit > 3) {
@@ -579,6 +581,6 @@ func init() {
 		Passes: func(tier string) []core.Pass {
 			return []core.Pass{{Name: "main", Mode: "load", Shards: 16, Timeout: 60 * time.Minute}}
 		},
-		Rule:        "Documents: valid definitions drawn from a grammar (plus a sub-grammar of quickly executable command-only definitions, a third of them with one mutation, so that the executed subset is large) covering every documented field (schedule in its three forms, env list/map, params, logDir, handlers, functions/call, sub-workflow, executor string/map/nested config, preconditions incl. re:, retry/repeat/continueOn, signalOnStop, mail/smtp, limits); 1-3 structural mutations of such a tree (type confusion scalar/list/map/null, delete, duplicate key, wrap in list/map, unknown key, non-string keys, null list elements, hostile strings: invalid regex/cron/signal, YAML 1.1 booleans, 70 kB strings, unicode); a quarter additionally byte-mutated; raw random bytes; deeply nested documents (50-20000 levels); a hand-written corpus aimed at every hand-coded type switch. Each document goes, inside a child process that logs BEGIN/END around it, through dag.LoadYAML, LoadMetadata, LoadWithoutEval, (safe-pool strings only) Load and Load with the document as base configuration, DAGStore.GetMetadata/GetDetails/List/Grep/TagList/UpdateSpec, client.GetStatus/GetAllStatus, and the scheduler daemon (directory scan, one tick, then the same document created and rewritten while the directory watcher runs, and another tick). Refuted by: a panic (caught per call, keyed by the innermost blackdagger frame) or process death, a call that does not return in 30 s, an accepted definition with a step without name / with nothing to execute, a schedule entry that is not parsed or not parseable, an unknown signalOnStop, a status (model.NewStatus) that cannot be JSON-encoded, read back and re-encoded identically; EvalConditions panicking; for accepted definitions whose steps are harmless (true/false/echo/sh, no repeat, no mail) the real Agent.Run over a real history store: panic, served status not encodable, run file present but not readable back with the request id and a final status. Non-trivial & distinct = distinct document texts.",
+		Rule:        "Documents: valid definitions drawn from a grammar (plus a sub-grammar of quickly executable command-only definitions, a third of them with one mutation, so that the executed subset is large) covering every documented field (schedule in its three forms, env list/map, params, logDir, handlers, functions/call, sub-workflow, executor string/map/nested config, preconditions incl. re:, retry/repeat/continueOn, signalOnStop, mail/smtp, limits); 1-3 structural mutations of such a tree (type confusion scalar/list/map/null, delete, duplicate key, wrap in list/map, unknown key, non-string keys, null list elements, hostile strings: invalid regex/cron/signal, YAML 1.1 booleans, 70 kB strings, unicode); a quarter additionally byte-mutated; raw random bytes; deeply nested documents (50-20000 levels); a hand-written corpus aimed at every hand-coded type switch. Each document goes, inside a child process that logs BEGIN/END around it, through dag.LoadYAML, LoadMetadata, LoadWithoutEval, (safe-pool strings only) Load and Load with the document as base configuration, DAGStore.GetMetadata/GetDetails/List/Grep/TagList/UpdateSpec, client.GetStatus/GetAllStatus, and the scheduler daemon (directory scan, one tick, then the same document created and rewritten while the directory watcher runs, and another tick). Refuted by: a panic (caught per call, keyed by the innermost blackdagger frame) or process death, a call that does not return in 30 s, an accepted definition with a step without name / with nothing to execute, a schedule entry that is not parsed or not parseable, an unknown signalOnStop, a status (model.NewStatus) that cannot be JSON-encoded, read back and re-encoded identically; EvalConditions panicking; for accepted definitions whose steps are harmless (true/false/echo/sh, no repeat; mail notifications only where no SMTP host is configured, so that sending fails on the spot) the real Agent.Run over a real history store: panic, served status not encodable, run file present but not readable back with the request id and a final status. Non-trivial & distinct = distinct document texts.",
 		Assumptions: []string{"commands that an evaluating load may execute resolve only inside a scratch bin directory (sh, echo, true, false)", "the executed subset is restricted to harmless short steps; a run that exceeds 20 s is counted, not judged"}})
 }
